@@ -7,9 +7,11 @@ func init() {
 		Runs: []Run{
 			{Pkg: "fasthttp", Func: "vhC24ByteRange", Quick: map[string]int{"maxRange": 5}, Thorough: map[string]int{"maxRange": 7}},
 			{Pkg: "fasthttp", Func: "vhC24ByteRangeForms", Quick: map[string]int{"rangeDigits": 3}, Thorough: map[string]int{"rangeDigits": 5}},
+			{Pkg: "fasthttp", Func: "vhC24FSResponses", Quick: map[string]int{"fileLen": 2, "specLen": 3}, Thorough: map[string]int{"fileLen": 3, "specLen": 4}, PathCap: 1500000},
 		},
 		Assume: []string{
-			"only the ParseByteRange clause of C24 (accepted range inside the content, accept-iff-satisfiable, values) is decided; the FS handler's 206/416/304/HEAD behaviour on real files is outside this check",
+			"ParseByteRange clause: accepted range inside the content, accept-iff-satisfiable, values",
+			"FS clause (vhC24FSResponses): " + fsAssume + "; one file of ≤ fileLen arbitrary bytes whose modification time lies half a second into its second, a Range spec of ≤ specLen arbitrary visible bytes, If-Modified-Since absent / one second before / the file's second / one second after, GET and HEAD through the real serve loop; reference: RFC 9110 §14.1.2 single byte range written out in the harness (specs it calls malformed may be answered 416 or 200); compressed variants (Accept-Encoding) and files around the 8 KiB threshold of the OS file system are outside",
 			"range spec after 'bytes=' is an arbitrary byte string of length ≤ maxRange; content length is any non-negative int",
 		},
 	})
@@ -385,6 +387,20 @@ func init() {
 		Assume: []string{fsAssume,
 			"request target '/' + ≤ targetLen arbitrary bytes through the real URI parser and path normaliser; Root ∈ {r, r/s, empty}; Compress on/off (Accept-Encoding: gzip); no rewriter or NewVHostPathRewriter / NewPathSlashesStripper / NewPathPrefixStripper with count 0..2; host of ≤ hostLen arbitrary bytes for the virtual-host rewriter; every file is absent, so the subject is which names are passed to Open",
 			"obligations: every opened name is the root or lexically below it without a '..' segment; a path containing NUL opens nothing and is answered 400; a rewritten path with a '..' segment opens nothing",
+		},
+	})
+}
+
+func init() {
+	register(&Property{
+		ID:    "C25",
+		Units: fsUnits,
+		Runs: []Run{
+			{Pkg: "fasthttp", Func: "vhC25Handles", Quick: map[string]int{"requests": 2, "delayKinds": 2}, Thorough: map[string]int{"requests": 2, "delayKinds": 3}, PathCap: 3000000},
+		},
+		Assume: []string{fsAssume,
+			"sequential requests (≤ 2) on fresh connections for {two files, a missing file, a directory} × GET/HEAD × {no extra header, a satisfiable range, an unsatisfiable range, If-Modified-Since equal to the modification time}; every file read takes 0 / 2.5 s (/ 0.7 s in thorough) of virtual time and requests are spaced by the same choices, with CacheDuration = 1 s, so the real cleaner goroutine (ticker on the engine's virtual clock) evicts entries between requests and while a response is reading; the cleaner is finally stopped through FS.CleanStop",
+			"truly concurrent requests (two responses reading one file at the same time) and compressed-file caches are outside this check",
 		},
 	})
 }
